@@ -12,9 +12,12 @@ import (
 	"go/types"
 	"os"
 	"strings"
+	"unicode/utf8"
 	"unsafe"
 
 	"golang.org/x/tools/go/ssa"
+
+	"verif/engine/smt"
 )
 
 // If the target program panics, the interpreter panics with this type.
@@ -1296,7 +1299,40 @@ func conv(t_dst, t_src types.Type, x value) value {
 					copy(cp, ss.bytes())
 					return cp
 				}
-				panic(pathAbort{"[]rune(symbolic string)"})
+				// []rune: exact for ASCII content; a path on which a symbolic byte may be >= 0x80 ends as unsupported
+				rs := make([]value, 0, len(ss.bytes()))
+				bs := ss.bytes()
+				for i := 0; i < len(bs); i++ {
+					switch b := bs[i].(type) {
+					case sym:
+						c := b.t.C
+						if !exOf(b.t).Branch(c.Cmp(smt.OpULt, b.t, c.Const(0x80, 8))) {
+							panic(pathAbort{"[]rune(symbolic non-ASCII string)"})
+						}
+						rs = append(rs, mkVal(types.Typ[types.Int32], c.ZExt(b.t, 32)))
+					case byte:
+						if b < 0x80 {
+							rs = append(rs, rune(b))
+							continue
+						}
+						// concrete multi-byte sequence: decode it as the runtime does when its bytes are all concrete
+						var seq []byte
+						for j := i; j < len(bs) && j < i+4; j++ {
+							cb, ok := bs[j].(byte)
+							if !ok {
+								break
+							}
+							seq = append(seq, cb)
+						}
+						r, size := utf8.DecodeRune(seq)
+						if !utf8.FullRune(seq) && len(seq) < 4 && i+len(seq) < len(bs) {
+							panic(pathAbort{"[]rune(string with a symbolic byte inside a multi-byte sequence)"})
+						}
+						rs = append(rs, r)
+						i += size - 1
+					}
+				}
+				return rs
 			case *types.Basic:
 				if ut_dst.Kind() == types.String {
 					return ss
